@@ -15,10 +15,12 @@ import os
 import sys
 
 import c16_gen
+import c16_space
 import common
 import css_util as U
 
 USER_RECURSION_LIMIT = 1000      # CPython's default: what a user of the library gets (./check raises its own to 10000)
+SPACE = True                     # white space of every kind (c16_space) in every place of a stylesheet
 SCALE = True                     # stylesheets / values with depth, counts and token lengths in the thousands
 
 
@@ -212,8 +214,19 @@ def run_css(ctx):
             'unclosed comment, unclosed string ending in backslashes) with size drawn from 1100/1500/2100%s, positions sampled '
             '(-1..2, the middle, len-2..len+1, 3 random), judged by the oracle only (the extracted model needs minutes '
             'there); 7 value families of sizes 1100/2100 (thorough also 5000) for split_value through oracle and model. The implementation runs '
-            'under CPython\'s default recursion limit %d.' % (n_ex, 'on' if SCALE else 'OFF', '' if quick else '/5000',
-                                                            USER_RECURSION_LIMIT))
+            'under CPython\'s default recursion limit %d. WHITE SPACE OF EVERY KIND (%s): the %d characters of the Unicode '
+            'White_Space property, of Python\'s str.isspace() and the invisible format characters U+200B U+2060 U+FEFF '
+            '(written out in c16_space.SPACES; NO-BREAK SPACE, FORM FEED, EM SPACE, LINE SEPARATOR ... besides blank, tab, CR, '
+            'LF) -- ALL strings of length <= %d over the 7-character alphabet `a { } : ; U+00A0 U+000C` that hold one '
+            'of the two; %d stylesheet shapes (block body, property value with and without `;`, before / after every '
+            'delimiter, inside parentheses, strings and nested blocks, unclosed block / value, sheet start / end) with every '
+            'slot filled by every one of the characters (8 representatives alone, doubled, next to ASCII blanks and around a line '
+            'break, the others in one of these forms each; so also '
+            'bodies and values that are such white space ONLY); generated valid stylesheets in which runs of blanks are '
+            'replaced, runs inserted next to delimiters, whole bodies / values / parentheses replaced by a drawn run (three '
+            'tenths mutated further); every position -1..len+1, oracle and model.' % (
+                n_ex, 'on' if SCALE else 'OFF', '' if quick else '/5000', USER_RECURSION_LIMIT,
+                'on' if SPACE else 'OFF', len(c16_space.SPACES), n_ex, len(c16_space.CSS_SHAPES)))
     ctx.cov['rule'] = (ctx.cov['rule'] + ' || ' if ctx.cov.get('rule') else '') + rule
     state = {'failures': [], 'dis': 0, 'strings': 0}
     check_strings(ctx, model, load_corpus(), 'corpus', 1, state)
@@ -233,6 +246,17 @@ def run_css(ctx):
             text, _ = U.gen_sheet(rng, lambda k: None, semis=False, max_depth=4, n_max=4)
         mut.append(U.mutate(rng, text)[:400])
     check_strings(ctx, model, mut, 'mutated', procs, state)
+    if SPACE:
+        sx = list(c16_space.css_space_exhaustive(n_ex))
+        check_strings(ctx, model, sx, 'space-exhaustive', procs, state)
+        check_strings(ctx, model, list(c16_space.css_space_shapes()), 'space-shapes', procs, state)
+        sm = []
+        for _ in range(400 if quick else 6000):
+            text, _ = U.gen_sheet(rng, lambda k: None, semis=rng.random() < 0.5, max_depth=2, n_max=2)
+            text = c16_space.space_mutate(rng, text)
+            sm.append((U.mutate(rng, text) if rng.random() < 0.3 else text)[:400])
+        check_strings(ctx, model, sm, 'space-mutated', procs, state)
+        ctx.cov['css_space_exhaustive'] = {'alphabet': ''.join(c16_space.CSS_SPACE_ALPHABET), 'max_len': n_ex, 'strings': len(sx)}
     if SCALE:
         check_scale(ctx, model, procs, state)
     state['failures'].sort(key=lambda t: t[:2])
